@@ -26,7 +26,10 @@ type ecKeySet struct {
 
 // run an EdDSA key generation under a strategy and return what every party saved
 func genEdKeys(rng *rand.Rand, n, t int, pattern int, st Strategy) (*edKeySet, error) {
-	keys := partyKeys(rng, n, pattern, tss.Edwards().Params().N)
+	return genEdKeysWith(rng, n, t, partyKeys(rng, n, pattern, tss.Edwards().Params().N), st)
+}
+
+func genEdKeysWith(rng *rand.Rand, n, t int, keys []*big.Int, st Strategy) (*edKeySet, error) {
 	net := eddsaKeygenNet(rng, n, t, keys)
 	if !net.Run(rng, st, 100000) {
 		return nil, fmt.Errorf("step limit")
@@ -43,7 +46,10 @@ func genEdKeys(rng *rand.Rand, n, t int, pattern int, st Strategy) (*edKeySet, e
 }
 
 func genEcKeys(rng *rand.Rand, n, t int, pattern int, st Strategy) (*ecKeySet, error) {
-	keys := partyKeys(rng, n, pattern, tss.S256().Params().N)
+	return genEcKeysWith(rng, n, t, partyKeys(rng, n, pattern, tss.S256().Params().N), st)
+}
+
+func genEcKeysWith(rng *rand.Rand, n, t int, keys []*big.Int, st Strategy) (*ecKeySet, error) {
 	net := ecdsaKeygenNet(rng, n, t, keys, rng.Intn(5))
 	if !net.Run(rng, st, 100000) {
 		return nil, fmt.Errorf("step limit")
